@@ -73,14 +73,14 @@ def native_clause_failures(seed):
         rows["routes_agree"] = (np.allclose(uc2.lengths, L, rtol=1e-9) and np.allclose(uc2.angles, A, atol=1e-8) and np.allclose(uc2.direct, D)
                                 and np.allclose(uc2.inverse, V, atol=1e-9) and np.isclose(uc2.volume(), uc.volume(), rtol=1e-9))
         rows["parameters"] = np.allclose(uc.parameters, list(L) + list(np.degrees(A)), rtol=1e-9)
-        # the same cell given by vectors in another orientation (rigid rotation Q, then an axis permutation of the Cartesian frame)
+        # the same cell given by vectors in another orientation (rigid rotation Q, an axis permutation of the Cartesian frame, a mirror image)
         q = np.random.default_rng(int(abs(L[0]) * 1e6) % (2 ** 31)).normal(size=4)
         q /= np.linalg.norm(q)
         w_, x_, y_, z_ = q
         Q = np.array([[1 - 2 * (y_ * y_ + z_ * z_), 2 * (x_ * y_ - z_ * w_), 2 * (x_ * z_ + y_ * w_)],
                       [2 * (x_ * y_ + z_ * w_), 1 - 2 * (x_ * x_ + z_ * z_), 2 * (y_ * z_ - x_ * w_)],
                       [2 * (x_ * z_ - y_ * w_), 2 * (y_ * z_ + x_ * w_), 1 - 2 * (x_ * x_ + y_ * y_)]])
-        for Qk in (Q, Q[:, [1, 2, 0]]):
+        for Qk in (Q, Q[:, [1, 2, 0]], Q @ np.diag([1.0, 1.0, -1.0])):      # the last one is a mirror image: a left-handed set of lattice vectors (negative determinant)
             uc3 = UnitCell(D @ Qk)
             V3 = uc3.inverse
             star3 = [np.linalg.norm(V3[:, i]) for i in range(3)]
